@@ -339,6 +339,47 @@ pub fn run(out: &mut Out, tier: &str, seed: u64, prop: &str) {
                 }
             }
             for r in 0..(if big { 6 } else { 2 }) { cross_process_order(out, "C14", &mut rng, &format!("H{seed}r{r}")); }
+            // (3) plain comparisons (no star, tilde or list; literals with >= 2 segments): the code normalises the
+            //     spelling of these, so the text must not depend on which spelling the process saw first —
+            //     this is OUTSIDE the recorded finding K1 (single-segment, star-, tilde- and list-derived bounds)
+            {
+                let pairs = [("0.0", "0.0.0"), ("1.0", "1.0.0"), ("3.8", "3.8.0.0"), ("0.1", "0.1.0"), ("10.0", "10.0.0"), ("2.7.1", "2.7.1.0"), ("0.0", "0.0.0.0")];
+                let ops = [">=", "<", "==", "!=", ">", "<="];
+                let keys = ["python_full_version", "implementation_version"];
+                let rounds = if big { 12 } else { 4 };
+                for round in 0..rounds {
+                    let mut q: Vec<(String, String)> = Vec::new();
+                    let mut warm: Vec<String> = Vec::new();
+                    for (i, (short, padded)) in pairs.iter().enumerate() {
+                        let key = keys[(i + round) % keys.len()];
+                        let op = ops[(i * 5 + round) % ops.len()];
+                        q.push((format!("a{i}"), format!("{key} {op} '{short}' and os_name == 'posix'")));
+                        warm.push(format!("p w{i} {}", hex(&format!("{key} {op} '{padded}'"))));
+                        warm.push(format!("p v{i} {}", hex(&format!("{key} >= '{padded}' or {key} < '{padded}'"))));
+                    }
+                    let mut reference: Option<Vec<String>> = None;
+                    for (k, wu) in [Vec::new(), warm.clone()].iter().enumerate() {
+                        let mut w = Worker::spawn("hist");
+                        for c in wu { w.call(c); }
+                        for c in script_for(&q, &[]) { w.call(&c); }
+                        let obs: Vec<String> = q.iter().map(|(n, _)| w.call(&format!("obs {n}"))).collect();
+                        out.evaluations += 1;
+                        match &reference {
+                            None => reference = Some(obs),
+                            Some(o0) => {
+                                for (i, (n, text)) in q.iter().enumerate() {
+                                    if o0[i] != obs[i] {
+                                        let (a, b): (Vec<&str>, Vec<&str>) = (o0[i].split('\x1f').collect(), obs[i].split('\x1f').collect());
+                                        let (ta, tb) = (if a.get(1) == Some(&"none") { String::new() } else { unhex(a.get(1).unwrap_or(&"-")) }, if b.get(1) == Some(&"none") { String::new() } else { unhex(b.get(1).unwrap_or(&"-")) });
+                                        out.oracle_fail("C14", "a plain comparison is displayed / put in DNF differently after the process parsed another spelling of the same version first", serde_json::json!({"class": "spelling-plain", "query": text, "name": n, "warmup": wu, "fresh": ta, "after_warmup": tb, "history": k}));
+                                    }
+                                }
+                                out.nontrivial(format!("plain {round}.{k}"));
+                            }
+                        }
+                    }
+                }
+            }
         }
         "C15" => {
             let rounds = if big { 60 } else { 12 };
